@@ -133,10 +133,10 @@ Theorem C37_np_recombine_eq :
 Proof. exact np_recombine_eq. Qed.
 Print Assumptions C37_np_recombine_eq.
 
-(** PRSS of zero: the array version (power sum over i1^1..i1^d) on a PRF block r equals the list
-    version (Horner) on the reversed block *)
+(** PRSS of zero: the array version (power sum over i1^d..i1^1) on a PRF block r equals the list
+    version (Horner) on the same block *)
 Theorem C37_np_prss0_eq :
-  forall (K : FieldT) (r : list K) (x : K), np_prss0_term K r x = list_prss0_term K (rev r) x.
+  forall (K : FieldT) (r : list K) (x : K), np_prss0_term K r x = list_prss0_term K r x.
 Proof. exact np_prss0_agree. Qed.
 Print Assumptions C37_np_prss0_eq.
 
